@@ -1,5 +1,6 @@
 use cc_conform::{compile, export, prog};
 
+use std::collections::HashSet;
 use serde_json::{json, Value as Json};
 use std::io::{BufRead, Write};
 
@@ -428,6 +429,15 @@ fn cmd_detleak(args: &[String]) {
             let n = n_nodes + nd.iter().sum::<usize>();
             let mut seen: [Vec<std::collections::HashSet<Vec<u8>>>; 2] = [vec![Default::default(); n], vec![Default::default(); n]];
             let mut first: [Vec<Vec<u8>>; 2] = [vec![vec![]; n], vec![vec![]; n]];
+            // 64-bit digests of the observer's store values per (side, run, node): the equality pattern between two values
+            // of one run ([v_a = v_b]) is a function of the view as well (PairLeakFree in spec/DetLeakTrace.tla)
+            let mut digest: [Vec<Vec<u64>>; 2] = [vec![], vec![]];
+            let hash64 = |b: &[u8]| -> u64 {
+                use std::hash::{Hash, Hasher};
+                let mut h = std::collections::hash_map::DefaultHasher::new();
+                b.hash(&mut h);
+                h.finish()
+            };
             for (side, inputs) in [&ia, &ib].iter().enumerate() {
                 for k in 0..runs {
                     let run = run_observed(&g, &owners, inputs, obs, seed, seed.wrapping_mul(1000003).wrapping_add(17 + k + 1000 * side as u64), &fixed)?;
@@ -440,6 +450,8 @@ fn cmd_detleak(args: &[String]) {
                         }
                         entries.push(b);
                     }
+                    // values of fewer than 8 bytes coincide by chance too often to say anything (digest 0 = not compared)
+                    digest[side].push(entries.iter().map(|b| if b.len() >= 13 && b[0] != 255 { hash64(b) | 1 } else { 0 }).collect());
                     for (i, v) in run.store.iter().enumerate() {
                         match v {
                             Some(v) => {
@@ -473,7 +485,66 @@ fn cmd_detleak(args: &[String]) {
                     }
                 }
             }
-            Ok(json!({"id": job["id"], "name": job["name"], "observer": obs, "runs": runs,
+            // pairs of store values: classes of values that are equal in EVERY run of one side (chained digests), one
+            // representative per class of the other side; for each such pair the number of runs with equal values per side
+            let chain = |side: usize| -> Vec<u64> {
+                let mut key = vec![0u64; n_nodes];
+                for run in digest[side].iter() {
+                    for i in 0..n_nodes {
+                        key[i] = if run[i] == 0 { 0 } else { hash64(&[key[i].to_le_bytes(), run[i].to_le_bytes()].concat()) | 1 };
+                    }
+                }
+                // a value that was not comparable in some run is never "always equal"
+                for run in digest[side].iter() {
+                    for i in 0..n_nodes {
+                        if run[i] == 0 {
+                            key[i] = 0;
+                        }
+                    }
+                }
+                key
+            };
+            let keys = [chain(0), chain(1)];
+            let count_eq = |side: usize, a: usize, b: usize| -> u64 { digest[side].iter().filter(|r| r[a] != 0 && r[a] == r[b]).count() as u64 };
+            let mut pairs = vec![];
+            let mut pair_nodes = vec![];
+            let mut structural_pairs = 0u64;
+            for side in 0..2 {
+                let other = 1 - side;
+                let mut classes: std::collections::HashMap<u64, Vec<usize>> = Default::default();
+                for i in 0..n_nodes {
+                    if keys[side][i] != 0 {
+                        classes.entry(keys[side][i]).or_default().push(i);
+                    }
+                }
+                let mut cl: Vec<_> = classes.into_values().filter(|c| c.len() >= 2).collect();
+                cl.sort();
+                for c in cl {
+                    // one representative per class of the other side (members of one class there are equal on both sides)
+                    let mut reps: Vec<usize> = vec![];
+                    let mut seen_other: HashSet<u64> = Default::default();
+                    for &i in c.iter() {
+                        let k = keys[other][i];
+                        if k == 0 || seen_other.insert(k) {
+                            reps.push(i);
+                        } else {
+                            structural_pairs += 1;
+                        }
+                    }
+                    let reps = &reps[..reps.len().min(40)];
+                    for (x, &a) in reps.iter().enumerate() {
+                        for &b in reps[x + 1..].iter() {
+                            let (ea, eb) = (count_eq(0, a, b), count_eq(1, a, b));
+                            if side == 1 && ea == runs {
+                                continue; // already listed from side 0
+                            }
+                            pairs.push(json!([ea, eb]));
+                            pair_nodes.push(json!([a, b]));
+                        }
+                    }
+                }
+            }
+            Ok(json!({"id": job["id"], "name": job["name"], "observer": obs, "runs": runs, "pairs": pairs, "pair_nodes": pair_nodes, "structural_pairs": structural_pairs,
                 "owners": job["owners"].as_array().unwrap().iter().map(owner_str).collect::<Vec<_>>(), "outs": job["outs"], "mode": job["mode"],
                 "nodes": n_nodes, "entries": n, "known_keys": fixed.len(), "per": per, "flagged": flagged,
                 "out": g.get_output_node()?.get_id() + 1,
